@@ -178,6 +178,8 @@ def eval_adverb_each_left(f, a, b, backend):
         Examples: 1,:\[2 3 4]  -->  [[1 2] [1 3] [1 4]]
                   1,:/[2 3 4]  -->  [[2 1] [3 1] [4 1]]
     """
+    if not is_iterable(b) and not is_dict(b):
+        return f(a,b) # "b" is an atom
     b = _str_members(backend, b) if isinstance(b,str) else b
     return backend.kg_asarray([f(a,x) for x in b])
 
@@ -186,6 +188,8 @@ def eval_adverb_each_right(f, a, b, backend):
     """
     see: eval_dyad_adverb_each_left
     """
+    if not is_iterable(b) and not is_dict(b):
+        return f(b,a) # "b" is an atom
     b = _str_members(backend, b) if isinstance(b,str) else b
     return backend.kg_asarray([f(x,a) for x in b])
 
